@@ -13,6 +13,7 @@ mod seek;
 mod shards;
 mod iohook;
 mod leafupd;
+mod lockrec;
 mod ovl;
 mod pipeline;
 mod overflow;
@@ -75,6 +76,8 @@ fn main() {
         "delta-log" => delta::run_log(seed, cases, &mut sink),
         "overflow" => overflow::run(seed, cases, &mut sink),
         "leafupd" => leafupd::run(seed, cases, &mut sink),
+        "lockrec" => lockrec::run(seed, cases, &mut sink, &args),
+        "lockrec-aba" => lockrec::aba(seed, cases, &mut sink),
         "pipeline" => pipeline::run(seed, cases, &mut sink, &args),
         "walker" => {
             let focus = arg(&args, "--focus").unwrap_or_else(|| "all".into());
